@@ -28,10 +28,11 @@ This file puts C09's concrete layers *under* C10's protocol:
     `bufRel_remove`, `addOk_live` (from C09's `btGet_btInsert`, `btGet_btErase`,
     `contains_graveErase`, `contains_graveInsert`, `addOk_eq`),
   - "`entries()` collected into a `TrieBuilder` gives live": `build_rep`, which is C09's snapshot
-    lemma `build_abs`.  It holds in **every** state, class UpdatePersisted (F10) included:
-    `entries()` yields a shadowed key twice, persisted value first (`trie_iter.chain(btree_iter)`),
-    and `TrieBuilder::insert` replaces in place, so the pending value — the map's — is written.
-    (The chain order matters: with the two iterators swapped the stale value would be written.)
+    lemma `build_abs`.  It holds in **every** state: since fix 8e6d504 (F10) `entries()` yields every
+    live key once — a persisted entry that has a pending entry of the same key is skipped — so the
+    pending value, the map's, is written whatever the order of `trie_iter.chain(btree_iter)` is.
+    (Before the fix the key was listed twice, persisted value first, `TrieBuilder::insert` replaced in
+    place, and the chain order was what made the written value right.)
 * `sim_run`, and with C10's `durable_spec` the end-to-end statement in C09's terms
   (`Props/C10.lean`, section "linked").
 -/
@@ -150,7 +151,6 @@ theorem live_rep {s : TrieBuf.State} {b : Buf} (h : BufRel s b) : Rep (TrieBuf.a
     is about the sequential writer's `file` / `inflight`, which C10's protocol replaces) -/
 structure LInv (s : TrieBuf.State) : Prop where
   bt : TrieBuf.KeysOk s.btree
-  range : ∀ e ∈ s.btree, TrieBuf.inRange e.1.2 = true
   snap : Trie.SnapOk s.snap
 
 /-- the same layers in a sequential state without writer: C09's lemmas apply to it, and every
@@ -158,22 +158,15 @@ structure LInv (s : TrieBuf.State) : Prop where
 def norm (s : TrieBuf.State) : TrieBuf.State := { s with file := s.snap, inflight := none, dirty := true }
 
 theorem inv_norm {s : TrieBuf.State} (h : LInv s) : TrieBuf.Inv (norm s) :=
-  ⟨h.bt, h.range, h.snap, h.snap, fun _ e => by simp [norm] at e, rfl, fun _ e => by simp [norm] at e,
+  ⟨h.bt, h.snap, h.snap, fun _ e => by simp [norm] at e, rfl, fun _ e => by simp [norm] at e,
    fun _ e => by simp [norm] at e, fun e => by simp [norm] at e⟩
 
-theorem linv_put {s : TrieBuf.State} (h : LInv s) (k : MapSpec.PKey) (v : MapSpec.Val)
-    (hr : TrieBuf.inRange k.2 = true) : LInv (TrieBuf.put s k v) := by
-  refine ⟨TrieBuf.keysOk_btInsert h.bt k v, ?_, h.snap⟩
-  intro e he
-  rcases TrieBuf.mem_btInsert.mp he with rfl | ⟨h1, _⟩
-  · exact hr
-  · exact h.range e h1
+theorem linv_put {s : TrieBuf.State} (h : LInv s) (k : MapSpec.PKey) (v : MapSpec.Val) :
+    LInv (TrieBuf.put s k v) :=
+  ⟨TrieBuf.keysOk_btInsert h.bt k v, h.snap⟩
 
-theorem linv_remove {s : TrieBuf.State} (h : LInv s) (k : MapSpec.PKey) : LInv (TrieBuf.removeSt s k) := by
-  refine ⟨TrieBuf.keysOk_btErase h.bt k, ?_, h.snap⟩
-  intro e he
-  simp only [TrieBuf.removeSt, TrieBuf.btErase, List.mem_filter] at he
-  exact h.range e he.1
+theorem linv_remove {s : TrieBuf.State} (h : LInv s) (k : MapSpec.PKey) : LInv (TrieBuf.removeSt s k) :=
+  ⟨TrieBuf.keysOk_btErase h.bt k, h.snap⟩
 
 /-- **C10's assumption about `add_phrase` / `update_phrase`** (`Buf.put` with the tombstone repair):
     C09's `put` is the abstract `put` at the encoded key -/
@@ -235,9 +228,8 @@ theorem addOk_live {s : TrieBuf.State} {b : Buf} (hl : LInv s) (h : BufRel s b) 
 
 /-- **C10's assumption "`entries()` collected into a `TrieBuilder` gives the live contents"**
     (`Persist.checkpoint`: `snap := w.buf.live`): the file built from C09's concrete `entries()`
-    denotes the live map — C09's snapshot lemma `build_abs`, in every state (no exclusion of class
-    UpdatePersisted: a shadowed key is enumerated twice, persisted value first, and
-    `TrieBuilder::insert` lets the later, pending one win) -/
+    denotes the live map — C09's snapshot lemma `build_abs`, in every state (a key that is both persisted
+    and pending is enumerated once, with the pending value, since fix 8e6d504) -/
 theorem build_rep {s : TrieBuf.State} {b : Buf} (hl : LInv s) (h : BufRel s b) :
     Trie.SnapOk (Trie.build (TrieBuf.entries s)) ∧
       Rep (TrieBuf.baseGet (Trie.build (TrieBuf.entries s))) b.live := by
@@ -399,12 +391,6 @@ def opOf : CAct → Option MapSpec.Op
   | .remove k t => some (.remove k t)
   | _ => none
 
-/-- C09's precondition on calls: a phrase does not begin with U+10FFFF (class MaxCodePointPhrase) -/
-def CActOk : CAct → Prop
-  | .add _ t _ _ => TrieBuf.inRange t = true
-  | .update _ t _ _ => TrieBuf.inRange t = true
-  | _ => True
-
 /-- the repaired code: tombstone lifted by add/update (C09's F09 fix), `Drop` joins first (F12 fix) -/
 def cfgR : Cfg := { revive := true, joinFirst := true }
 
@@ -472,15 +458,15 @@ theorem repG_empty : RepG [] (fun _ => false) := fun _ => rfl
 
 theorem sim_adopt {s : TrieBuf.State} {b : Buf} {t : List Leaf} {c : Content} (hb : BufRel s b) (ht : TRel t c) :
     LInv (adopt s t) ∧ BufRel (adopt s t) { b with trie := c, btree := fun _ => none, grave := fun _ => false } :=
-  ⟨⟨List.Pairwise.nil, fun _ h => by simp [adopt] at h, ht.1⟩, ⟨ht.2, rep_empty_bt, repG_empty, hb.dirty⟩⟩
+  ⟨⟨List.Pairwise.nil, ht.1⟩, ⟨ht.2, rep_empty_bt, repG_empty, hb.dirty⟩⟩
 
 theorem sim_reload {s : TrieBuf.State} {b : Buf} {t : List Leaf} {c : Content} (hl : LInv s) (hb : BufRel s b)
     (ht : TRel t c) : LInv (reload s t) ∧ BufRel (reload s t) { b with trie := c } :=
-  ⟨⟨hl.bt, hl.range, ht.1⟩, ⟨ht.2, hb.btree, hb.grave, hb.dirty⟩⟩
+  ⟨⟨hl.bt, ht.1⟩, ⟨ht.2, hb.btree, hb.grave, hb.dirty⟩⟩
 
 theorem sim_fresh {t : List Leaf} {c : Content} (ht : TRel t c) (g : Nat) :
     LInv (freshSt t) ∧ BufRel (freshSt t) (Buf.fresh c g) :=
-  ⟨⟨List.Pairwise.nil, fun _ h => by simp [freshSt, TrieBuf.initFile, TrieBuf.initMem] at h, ht.1⟩,
+  ⟨⟨List.Pairwise.nil, ht.1⟩,
    ⟨ht.2, rep_empty_bt, repG_empty, rfl⟩⟩
 
 theorem sim_sync {cw : CWorld} {w : World} (h : Sim cw w) : Sim (csync cw) (sync w) := by
@@ -560,7 +546,7 @@ theorem sim_checkpoint {cw : CWorld} {w : World} (h : Sim cw w) : Sim (ccheckpoi
       | true =>
         simp only [Bool.not_true, Bool.false_eq_true, if_false]
         have hbr := build_rep hl hb
-        exact ⟨⟨hl.bt, hl.range, hl.snap⟩, ⟨hb.trie, hb.btree, hb.grave, rfl⟩, ⟨rfl, hbr, trivial⟩, hf, hp, hc⟩
+        exact ⟨⟨hl.bt, hl.snap⟩, ⟨hb.trie, hb.btree, hb.grave, rfl⟩, ⟨rfl, hbr, trivial⟩, hf, hp, hc⟩
 
 theorem sim_wstep {cwr cwr' : CWriter} {wr : Writer} {cfs cfs' : CFS} {fs : FS} (hw : WRel cwr wr) (hf : FSRel cfs fs)
     (h : cwstep cwr cfs = some (cwr', cfs')) :
@@ -602,20 +588,19 @@ theorem sim_wstep {cwr cwr' : CWriter} {wr : Writer} {cfs cfs' : CFS} {fs : FS} 
   case finished => cases h
 
 theorem sim_add {s : TrieBuf.State} {b : Buf} (hl : LInv s) (hb : BufRel s b) (k : List Nat) (t : Text) (f : Nat)
-    (tm : Option Nat) (hr : TrieBuf.inRange t = true) :
+    (tm : Option Nat) :
     LInv (TrieBuf.apply s (.add k t f tm)) ∧
       BufRel (TrieBuf.apply s (.add k t f tm)) (b.add cfgR (encK (k, t)) (encV (f, tm.getD 0))).1 := by
   simp only [TrieBuf.apply, Buf.add]
   rw [addOk_live hl hb]
   cases (b.live (encK (k, t))).isSome with
   | true => exact ⟨hl, hb⟩
-  | false => exact ⟨linv_put hl (k, t) _ hr, bufRel_put cfgR rfl hb hl.bt (k, t) _⟩
+  | false => exact ⟨linv_put hl (k, t) _, bufRel_put cfgR rfl hb hl.bt (k, t) _⟩
 
-theorem sim_update {s : TrieBuf.State} {b : Buf} (hl : LInv s) (hb : BufRel s b) (k : List Nat) (t : Text) (f tm : Nat)
-    (hr : TrieBuf.inRange t = true) :
+theorem sim_update {s : TrieBuf.State} {b : Buf} (hl : LInv s) (hb : BufRel s b) (k : List Nat) (t : Text) (f tm : Nat) :
     LInv (TrieBuf.apply s (.update k t f tm)) ∧
       BufRel (TrieBuf.apply s (.update k t f tm)) (b.put cfgR (encK (k, t)) (encV (f, tm))) :=
-  ⟨linv_put hl (k, t) _ hr, bufRel_put cfgR rfl hb hl.bt (k, t) _⟩
+  ⟨linv_put hl (k, t) _, bufRel_put cfgR rfl hb hl.bt (k, t) _⟩
 
 theorem sim_remove {s : TrieBuf.State} {b : Buf} (hl : LInv s) (hb : BufRel s b) (k : List Nat) (t : Text) :
     LInv (TrieBuf.apply s (.remove k t)) ∧ BufRel (TrieBuf.apply s (.remove k t)) (b.remove (encK (k, t))) := by
@@ -643,7 +628,7 @@ theorem writerDone_rel {cw : CWorld} {w : World} (h : Sim cw w) : cwriterDone cw
 /-- **forward simulation**: every step of C10's protocol over C09's concrete layers is the
     corresponding step of C10's abstract model (for the repaired code), and the abstraction relation
     is kept -/
-theorem sim_step {cw cw' : CWorld} {w : World} {a : CAct} (hs : Sim cw w) (ha : CActOk a)
+theorem sim_step {cw cw' : CWorld} {w : World} {a : CAct} (hs : Sim cw w)
     (h : cstep cw a = some cw') : ∃ w', step cfgR w (encAct a) = some w' ∧ Sim cw' w' := by
   have hdone := writerDone_rel hs
   have hsync := sim_sync hs
@@ -690,7 +675,7 @@ theorem sim_step {cw cw' : CWorld} {w : World} {a : CAct} (hs : Sim cw w) (ha : 
       by_cases hrun : cph = .run
       · simp only [hrun, if_true] at h ⊢
         cases h
-        have := sim_add hl hb k t f tm ha
+        have := sim_add hl hb k t f tm
         exact ⟨_, rfl, ⟨this.1, this.2, hw, hf, rfl, rfl⟩⟩
       · simp [hrun] at h
     | update k t f tm =>
@@ -698,7 +683,7 @@ theorem sim_step {cw cw' : CWorld} {w : World} {a : CAct} (hs : Sim cw w) (ha : 
       by_cases hrun : cph = .run
       · simp only [hrun, if_true] at h ⊢
         cases h
-        have := sim_update hl hb k t f tm ha
+        have := sim_update hl hb k t f tm
         exact ⟨_, rfl, ⟨this.1, this.2, hw, hf, rfl, rfl⟩⟩
       · simp [hrun] at h
     | remove k t =>
@@ -784,7 +769,7 @@ theorem sim_step {cw cw' : CWorld} {w : World} {a : CAct} (hs : Sim cw w) (ha : 
             exact ⟨_, rfl, ⟨this.1, this.2, hw, hf, rfl, rfl⟩⟩
       · simp [hcl] at h
 
-theorem sim_run {acts : List CAct} {cw cw' : CWorld} {w : World} (hs : Sim cw w) (ha : ∀ a ∈ acts, CActOk a)
+theorem sim_run {acts : List CAct} {cw cw' : CWorld} {w : World} (hs : Sim cw w)
     (h : crun cw acts = some cw') : ∃ w', run cfgR w (acts.map encAct) = some w' ∧ Sim cw' w' := by
   induction acts generalizing cw w with
   | nil =>
@@ -797,8 +782,8 @@ theorem sim_run {acts : List CAct} {cw cw' : CWorld} {w : World} (hs : Sim cw w)
     | none => rw [h1] at h; cases h
     | some cw1 =>
       rw [h1] at h
-      obtain ⟨w1, e1, hs1⟩ := sim_step hs (ha a (List.mem_cons_self ..)) h1
-      obtain ⟨w', e2, hs'⟩ := ih hs1 (fun b hb => ha b (List.mem_cons_of_mem _ hb)) h
+      obtain ⟨w1, e1, hs1⟩ := sim_step hs h1
+      obtain ⟨w', e2, hs'⟩ := ih hs1 h
       exact ⟨w', by simp only [List.map_cons, run, e1]; exact e2, hs'⟩
 
 /-! ### the initial world, and the specification side -/
